@@ -12,7 +12,7 @@ COMPONENTS = {
     'C03': 'buffercomp', 'C07': 'buffercomp', 'C08': 'buffercomp',
     'C04': 'batchercomp', 'C09': 'batchercomp', 'C10': 'batchercomp', 'C11': 'batchercomp',
     'C16': 'bridgecomp', 'C17': 'crossloopcomp',
-    'C14': 'keyscomp',
+    'C14': 'keyscomp', 'C15': 'c15comp',
     'C18': 'purecomp', 'C19': 'purecomp', 'C20': 'purecomp',
     'C02': 'filelockcomp', 'C12': 'filelockcomp', 'C13': 'filelockcomp',
 }
